@@ -31,6 +31,10 @@ impl NdjsonWriter {
         self.w.write_all(b"\n")?;
         Ok(())
     }
+    pub fn flush(&mut self) -> anyhow::Result<()> {
+        self.w.flush()?;
+        Ok(())
+    }
     pub fn finish(mut self) -> anyhow::Result<()> {
         self.w.flush()?;
         Ok(())
